@@ -75,4 +75,17 @@ def emeOaepEncode (hash mgfHash : Bytes → Bytes) (m seed : Bytes) (k : Nat) : 
   0x00 :: maskedSeed ++ maskedDB
 
 
+/-- EMSA-PSS encoding (RFC 8017 9.1.1) of a message hash with a given salt -/
+def emsaPssEncode (hash mgfHash : Bytes → Bytes) (mHash salt : Bytes) (emBits : Nat) : Bytes :=
+  let hLen := (hash []).length
+  let emLen := (emBits + 7) / 8
+  let h := hash (List.replicate 8 0 ++ mHash ++ salt)
+  let psLen := emLen - hLen - salt.length - 2
+  let db := List.replicate psLen 0 ++ 0x01 :: salt
+  let masked0 := xorBytes db (mgf1 mgfHash h (emLen - hLen - 1))
+  let topMask : UInt8 := UInt8.ofNat (0xFF >>> (8 * emLen - emBits))
+  let masked := match masked0 with | [] => [] | x :: r => (x &&& topMask) :: r
+  masked ++ h ++ [0xbc]
+
+
 end Shm.Crypto
